@@ -65,3 +65,8 @@ package xpair
 //@   ensures sel("select#1") == 1 ==> result0 == nil && result1 == protocol.ErrRecvTimeout
 //@
 // ---- end generated deadline contracts ----
+//@
+//@ func (*socket).Close
+//@   ghost was = s.closed at call:Lock#1
+//@   ensures was ==> result == protocol.ErrClosed
+//@   ensures !was ==> isnil(result) && s.closed && closed(s.closeQ)
